@@ -17,9 +17,11 @@ THEOREMS = {
     "SpecKitV.Lemmas.SchedNewVec": ["SchedNV.newStep_L_bounds", "SchedNV.newStep_K", "SchedNV.newWalk_bins", "SchedNV.newWalk_fuel",
                                     "SchedNV.vecGridPoint_props", "SchedNV.vecWalk_entry_from_map", "SchedNV.searchLeft_le"],
     "SpecKitV.Props.C02": ["ltfPlan_safe", "lpsdPlan_safe", "newPlan_safe", "vecPlan_safe", "planValidate_ok", "planValidate_ok_lpsd"],
+    "SpecKitV.Props.SchedGen": ["gen_ltf_round_eq", "gen_ltf_walk_eq_model", "gen_new_walk_eq_model"],
+    "SpecKitV.Props.Utils": ["gen_round_half_up_eq_model", "gen_round_half_up_eq_floor"],
 }
 CONTRACTS = ["np.round is round-half-even; Python round_half_up(v) = floor(v+1/2) (proved of the model)"]
-ASSUMPTIONS = ["the four schedulers are hand-modelled (Model/Sched.lean) and tied to schedulers.py by the plan correspondence; "
+ASSUMPTIONS = ["the main walks of ltf_plan and new_ltf_plan are TRANSLATED from schedulers.py each run and proved equal to the model walks (Props/SchedGen); start positions, overlaps and the vectorised scheduler are hand-modelled (Model/Sched.lean) and tied by the plan correspondence; "
                "float vs real branch choice at exact rounding ties is outside the theorems (counted as unstable-boundary)"]
 RULE = ("admissible configurations drawn branch-directed (tiny/medium/large N, (1-olap)L<1 corner, Lmin=N, bmin near N/2, Jdes=1, olap=0) × 4 schedulers, "
         "directly and through SpectrumAnalyzer.plan(); distinct by (scheduler, configuration); non-trivial = every generated configuration (plans have >= 1 bin)")
